@@ -237,9 +237,10 @@ fn describe(rec: &Rec, log: &BLog, plan: &Value, name: &str) {
 
 /// metrics-util's registry holds a shard lock (a plain std RwLock, no seam) for the whole of
 /// `visit_*`, i.e. across the scheduling points inside `readout`, and takes it exclusively when
-/// a key is created. The harness mirrors that lock with a simulated one: a readout holds it
-/// shared, the first registration of a key holds it exclusively (in the real code the
-/// registration would wait on the shard lock in exactly the same way).
+/// a key is created. A simulated thread that runs into a *real* lock held by a descheduled thread
+/// wedges the process, whatever mode either side uses, so the harness keeps every registry access
+/// (first or repeated registration: shared among themselves) out of a readout (exclusive) with a
+/// simulated lock. Updates through handles that are already held interleave freely with readouts.
 #[derive(Clone, Default)]
 pub struct RegistryGate {
     lock: Arc<detsim::sync::RwLock<()>>,
@@ -261,8 +262,7 @@ fn updater(rec: Rec, log: BLog, plan: Value, ops: Vec<Value>, gate: RegistryGate
                 let Some(spec) = keys.get(ki) else { continue };
                 let fresh = jb(op, "fresh", false);
                 if fresh || !cache.contains_key(&ki) {
-                    let exists = gate.created.lock().unwrap().contains(&ki);
-                    let _excl = if exists { None } else { Some(gate.lock.write().unwrap_or_else(|e| e.into_inner())) };
+                    let _excl = gate.lock.read().unwrap_or_else(|e| e.into_inner());
                     let h = if via_local {
                         // through the thread-local recorder, as the `metrics` macros do
                         metrics::with_local_recorder(&rec, || metrics::with_recorder(|r| {
@@ -313,9 +313,9 @@ fn updater(rec: Rec, log: BLog, plan: Value, ops: Vec<Value>, gate: RegistryGate
 
 fn do_readout(rec: &Rec, log: &BLog, rid: u64, wall: &AtomicI64, gate: &RegistryGate) {
     log.log(BK::ReadBegin { rid, wall_ns: wall.load(Ordering::SeqCst) });
-    let shared = gate.lock.read().unwrap_or_else(|e| e.into_inner());
+    let excl = gate.lock.write().unwrap_or_else(|e| e.into_inner());
     let entry = rec.readout();
-    drop(shared);
+    drop(excl);
     let out = replay_entry(&entry);
     log.log(BK::ReadEnd { rid, out });
 }
@@ -660,7 +660,7 @@ pub fn gen_c20(rng: &mut Rng, tier: Tier) -> Value {
     let nkeys = 1 + rng.below(4);
     let mut keys: Vec<Value> = vec![];
     let mut names: Vec<String> = vec![];
-    let label_sets: [&[(&str, &str)]; 5] = [&[], &[("op", "get")], &[("op", "put")], &[("op", "get"), ("az", "a")], &[("az", "b")]];
+    let label_sets: [&[(&str, &str)]; 7] = [&[], &[("op", "get")], &[("op", "put")], &[("op", "get"), ("az", "a")], &[("az", "b")], &[("tenant", "")], &[("op", "get"), ("tenant", "")]];
     for i in 0..nkeys {
         let kind = *rng.pick(&["c", "c", "c", "h", "h", "gs", "g"]);
         // a second label set under an existing name of the same kind, or a new name
